@@ -488,12 +488,13 @@ func init() {
 		run: genericRun(stagePlan{
 			repo: true,
 			covers: []coverPlan{
-				randCover("orders", small, deferBoth, 50, 400, 0),
+				randCover("orders", small, deferBoth, 40, 400, 0),
+				randCover("orders-rejects", tweak(small, func(f *fam.Features) { f.PInvalid = 0.8; f.Types = 2; f.PNamed = 0.05 }), deferBoth, 30, 300, 0),
 				structCover("chain", fam.Chain, deferBoth, false, 50, 0, 2, 0),
 				structCover("groups", fam.Groups, deferBoth, false, 10, 0, 2, 0),
 				digraphCover("digraphs-grp", "grp", deferBoth, 60, 800),
 			},
-			traces: pairTraces("orders", medium, deferBoth, []string{"perm", "perm", "scope-early", "scope-late", "defer"}, 25, 300)})})
+			traces: pairTraces("orders", tweak(medium, func(f *fam.Features) { f.PInvalid = 0.5 }), deferBoth, []string{"perm", "perm", "scope-early", "scope-late", "defer"}, 25, 300)})})
 
 	register(&propDef{id: "C17",
 		projection: "executions in a DryRun container (none), verdict classes of every operation",
